@@ -24,6 +24,8 @@ class G:
         self.seed = seed
         self.cfg = cfg or {}
         self.p_unit = self.rng.choice([0.0, 0.3, 0.7, 1.0])
+        if self.cfg.get('house'):
+            self.p_unit = 0.0
 
     # -- primitives
     def logu(self, lo, hi):
@@ -506,9 +508,33 @@ def add_stops(g, scn, model, chain, p=0.3):
 PROFILES = {'dyn': gen_dyn}
 
 
+def condition_load(scn):
+    """Differential profiles: keep the load function well conditioned, i.e.
+    keep w*theta of position terms small enough that one rounding step of
+    theta does not show up in the load beyond the comparison tolerance."""
+    load = scn.get('load')
+    if not load or not scn.get('schedule') or not scn.get('init'):
+        return
+    try:
+        model = model_of(scn['elements'], scn['decls'])
+        chain = model.chain(0)
+        k, R, E, J = rm.rate_constant(model, chain)
+    except Exception:      # noqa
+        return
+    w_out = model.e[chain[0]]['w0'] / R
+    T = sum(run_T_si(o) for o in scn['schedule'] if o['op'] == 'run')
+    th_max = abs(si.q_si('AngularPosition', scn['init']['position'])) + \
+        (abs(si.q_si('AngularSpeed', scn['init']['speed'])) + 2 * w_out) * T
+    for t in load['terms']:
+        if t['t'] == 'sinpos' and t['w'] * th_max > 1e3:
+            t['w'] = 1e3 / th_max
+
+
 def gen(seed, profile, cfg=None):
     g = G(seed, cfg)
     scn = PROFILES[profile](g)
+    if (cfg or {}).get('differential'):
+        condition_load(scn)
     scn['seed'] = seed
     scn['profile'] = profile
     return scn
